@@ -21,6 +21,13 @@ LABELS = ["31P", "153Eu", "182W", "56Fe | 56Fe.16O", "A", "Ca44", "13C", "x y", 
           "u" * 32, "238U", "7Li", "E.1", "0", "12", "44Ca#", "#31P", "63Cu #2", "#"]
 SAMPLES = ["Sample 1", "1", "S-2", "line 003", "2", "std_10ppm", "Sample 10", "x", "3", "blank (2)", "Sample #1", "#3", "S#", "a # b #"]
 HASH_FIELDS = ["#", "#N/A", "n/a #2", "1.5 # checked", "#VALUE!"]
+# names a user may type into Qtegra: accents, CJK, Greek, quotes, apostrophes, tabs, leading / trailing / double blanks, a
+# dash that is not ASCII, the line separators Python's str.splitlines knows and the text layer does not (\x0b \x0c \x1c
+# \x85 \u2028), names that repeat (the columns layout only counts them, the rows layout ignores them)
+SAMPLES_X = ["Probe é", "試料 1", "µ-std", '"quoted"', "it's", "a\tb", "Ω", " lead", "trail ", "two  blanks", "Zr–Hf", "naïve café",
+             "page\x0cbreak", "nel\x85", "ls\u2028sep", "vt\x0bx", "fs\x1cx", "Sample", "Sample", "Sample", "'", '"', "«S»", "№ 7"]
+LABELS_X = ["²⁰⁸Pb", "Pb 208", ' 31P', "31P ", '"31P"', "P'", "Fe→FeO", "µ", "αβγ", "試", "é" * 32, "Ca\t44", "Ar\u2028O", "U\x0c238",
+            "<Identifier>", "Sample 1", "1e5", "-1", "NaN", "0.5"]
 
 
 def value_of(tok: str) -> float:
@@ -82,6 +89,67 @@ def number(rng) -> str:
     return repr(rng.random() * 10 ** rng.randint(0, 6))
 
 
+def number_extreme(rng) -> str:
+    """values at the ends of the binary64 range and with 17 significant digits (none overflows to infinity)"""
+    k = rng.random()
+    if k < 0.2:
+        return rng.choice(["1.7976931348623157e308", "-1.7976931348623157E+308", "1e308", "8.98846567431158E+307", "4.9e-324", "5E-324",
+                           "2.2250738585072014e-308", "-2.225073858507201E-308", "1e-400", "-1E-400"])
+    if k < 0.45:
+        return repr(rng.uniform(-1, 1) * 10.0 ** rng.randint(-300, 300))
+    if k < 0.6:
+        return f"{rng.uniform(-10, 10) * 10.0 ** rng.randint(-300, 290):.16E}"          # 17 significant digits, exponent form
+    if k < 0.75:
+        return f"{rng.uniform(0, 1e6):.17g}"                                               # 17 significant digits, positional
+    if k < 0.85:
+        return rng.choice(["12345678901234567890", "-98765432109876543210", "9007199254740993", "18446744073709551616",
+                           "0.1000000000000000055511151231257827", "123456789.123456789123456789"])
+    if k < 0.93:
+        return rng.choice(["0", "-0", "0.0", "-0.0", "0E+00", "-0.0E-00", "0.000000000000000000"])
+    return rng.choice(["1E+05", "1e-7", "-1.5E-300", "6.02214076E+23", "1.0E0", "-1e0"])
+
+
+def labels_many(rng, k):
+    """k distinct isotope labels (mass number + symbol), in an order that is neither numeric nor lexicographic"""
+    syms = ["H", "Li", "Be", "B", "C", "N", "O", "F", "Na", "Mg", "Al", "Si", "P", "S", "Cl", "K", "Ca", "Sc", "Ti", "V", "Cr", "Mn", "Fe",
+            "Co", "Ni", "Cu", "Zn", "Ga", "Ge", "As", "Se", "Br", "Rb", "Sr", "Y", "Zr", "Nb", "Mo", "Ru", "Rh", "Pd", "Ag", "Cd", "In", "Sn",
+            "Sb", "Te", "I", "Cs", "Ba", "La", "Ce", "Pr", "Nd", "Sm", "Eu", "Gd", "Tb", "Dy", "Ho", "Er", "Tm", "Yb", "Lu", "Hf", "Ta", "W",
+            "Re", "Os", "Ir", "Pt", "Au", "Hg", "Tl", "Pb", "Bi", "Th", "U"]
+    out, seen = [], set()
+    while len(out) < k:
+        lab = f"{rng.randint(1, 260)}{rng.choice(syms)}"
+        if lab not in seen:
+            seen.add(lab)
+            out.append(lab)
+    return out
+
+
+def time_tokens(rng, n, m, k, irregular):
+    """[sample][scan][element] -> text of the Time channel.  regular: one interval for the whole acquisition (jitter of
+    1e-5); irregular: every sample has its own intervals (0.05 .. 3.7 s, now and then a long pause, a repeated or an earlier
+    time stamp) and its own start, so the mean interval depends on every sample and every scan"""
+    def fmt(v):
+        tok = f"{v:.5f}".rstrip("0")
+        return tok + "0" if tok.endswith(".") else tok
+
+    if not irregular:
+        dt = rng.choice([1.0049, 0.2, 0.25, 0.50005, 0.1, 2.0])
+        return [[[fmt(0.2 + 0.4 * e + s * dt + rng.choice([0, 1, -1, 2, 3]) * 1e-5) for e in range(k)] for s in range(m)] for i in range(n)]
+    out = []
+    start = rng.choice([0.0, 0.2, 12.5, 3600.0, 9000.125])
+    for i in range(n):
+        t = start + (rng.choice([0.0, 0.3, 7.0, 100.0]) * i)
+        per_scan = []
+        for s in range(m):
+            if s:
+                r = rng.random()
+                t += (rng.choice([0.05, 0.1, 0.25, 0.5, 1.0, 1.0049, 2.0, 3.7]) if r < 0.8 else rng.choice([30.0, 12.34567]) if r < 0.9
+                      else 0.0 if r < 0.95 else -0.5)
+            per_scan.append([fmt(t + 0.4 * e + rng.choice([0, 1, -1, 2, 3]) * 1e-5) for e in range(k)])
+        out.append(per_scan)
+    return out
+
+
 def sample_names(rng, n, p_named):
     """n sample names: drawn from SAMPLES, or numbered ("Sample 3", one time in four "Sample #3")"""
     if rng.random() < p_named and n <= len(SAMPLES):
@@ -102,10 +170,18 @@ def generate(rng, tier):
     m = rng.choice([2, 2, 3, 4, 5, 8, 11])
     k = rng.choice([1, 1, 2, 3, 4])
     big = rng.random()
+    many = False
     if big < 0.04:      # many samples: header lines of the columns layout far longer than any read-ahead buffer
         n, m, k = rng.choice([80, 150, 400]), 2, 1
     elif big < 0.08:    # many scans: every line of the rows layout is long
         n, m, k = 1, rng.choice([300, 1100]), rng.choice([1, 2])
+    elif big < 0.13:    # many elements (a full-mass-range method): 30 .. 120 labels, order of first appearance
+        n, m, k, many = rng.choice([1, 2, 3]), rng.choice([2, 2, 3]), rng.choice([30, 64, 120]), True
+    elif big < 0.15:    # everything moderately large at once
+        n, m, k = rng.choice([20, 30]), rng.choice([20, 25]), rng.choice([2, 3])
+    exotic = rng.random() < 0.15 and n <= 12          # accents, CJK, quotes, tabs, odd separators, repeated sample names
+    irregular = rng.random() < 0.25                    # a Time channel with its own intervals in every sample
+    extreme = rng.random() < 0.12                      # values at the ends of the binary64 range, 17 significant digits
     delimiter, decimal = rng.choice([(",", "."), (";", "."), (";", ",")])
     xname = rng.choice(["X [u]", "X (u)"])
     extra = [c for c in CHANNELS[:-1] if rng.random() < 0.55]
@@ -114,9 +190,19 @@ def generate(rng, tier):
     channels = [xname if c == "X" else c for c in CHANNELS if c in extra]
     if not channels:
         channels = ["Counter"]
-    elements = rng.sample(LABELS, k)
-    samples = sample_names(rng, n, 0.7)
-    dt = rng.choice([1.0049, 0.2, 0.25, 0.50005, 0.1, 2.0])
+    if many:
+        elements = labels_many(rng, k)
+    elif exotic and k <= len(LABELS_X):
+        elements = rng.sample(list(dict.fromkeys(LABELS_X + LABELS[:6])), k)
+    else:
+        elements = rng.sample(list(dict.fromkeys(LABELS + labels_many(rng, 8))), k)
+    if exotic and rng.random() < 0.25:
+        samples = [rng.choice(["Sample", "1", "é"])] * n          # every line has the same name
+    elif exotic:
+        samples = [rng.choice(SAMPLES_X) for _ in range(n)]
+    else:
+        samples = sample_names(rng, n, 0.7)
+    times = time_tokens(rng, n, m, k, irregular) if "Time" in channels else None
     tokens = []
     for i in range(n):
         per_scan = []
@@ -126,10 +212,9 @@ def generate(rng, tier):
                 per_ch = []
                 for ch in channels:
                     if ch == "Time":
-                        tok = f"{0.2 + 0.4 * e + s * dt + rng.choice([0, 1, -1, 2, 3]) * 1e-5:.5f}".rstrip("0")
-                        tok = tok + "0" if tok.endswith(".") else tok
+                        tok = times[i][s][e]
                     else:
-                        tok = hash_field(rng, ch) or number(rng)
+                        tok = hash_field(rng, ch) or (number_extreme(rng) if extreme and rng.random() < 0.5 else number(rng))
                     per_ch.append(tok.replace(".", ",") if decimal == "," else tok)
                 per_el.append(per_ch)
             per_scan.append(per_el)
@@ -137,6 +222,8 @@ def generate(rng, tier):
     kind = rng.choice(["readers", "readers", "load"])
     return {"kind": kind, "use_analog": rng.random() < 0.4, "delimiter": delimiter, "decimal": decimal, "bom": rng.random() < 0.5,
             "eol": rng.choice(["\r\n", "\r\n", "\n"]), "explicit_delimiter": rng.random() < 0.4,
+            "comma_flag": delimiter == ";" and decimal == "." and rng.random() < 0.35,   # comma_decimal=True on a file without commas
+            "path_str": rng.random() < 0.3, "positional": rng.random() < 0.2,
             "acq": {"samples": samples, "nscans": m, "elements": elements, "channels": channels, "tokens": tokens}}
 
 
